@@ -121,7 +121,7 @@ def layout_class(c):
 
 
 def run(ctx):
-    lw = setup(ctx)
+    lw = setup(ctx, warm=False)
     install(lw)
     import matplotlib.pyplot as plt
     import IPython.display
